@@ -350,25 +350,53 @@ def run(ctx):
     if gi is None:
         raise AnalysisError("MemoryManager.get_inactive_register not found")
     ctx.fn("MemoryManager.get_inactive_register")
-    loops = [n for n in ast.walk(gi) if isinstance(n, ast.For)]
-    ok = False
-    if loops:
+    # executed abstractly (nqsa/circuit.py) on memory managers with given sets of active registers; a register is modelled by
+    # the text handed to parse_register
+    from .. import circuit as C
+    r_ = repo.lookup(mm, "get_inactive_register")
+
+    def run_pool(active, activate):
+        sc = C.Scenario()
+        sc.overrides["parse_register"] = lambda text: text
+        o = C.object_from_init(repo, mm, {"_active_registers": set(active)}, kind="self")
+        it = C.Interp(repo, ev, sc, mm)
         try:
-            rng = ev.eval(loops[0].iter, mm.module)
-            ok = list(rng) == list(range(16))
-        except Unknown:
-            ok = False
-        made = [c for c in A.calls_in(loops[0]) if A.call_name(c) == "parse_register"]
-        ok = ok and bool(made) and isinstance(made[0].args[0], ast.JoinedStr) and made[0].args[0].values and isinstance(made[0].args[0].values[0], ast.Constant) and made[0].args[0].values[0].value == "R"
-    ctx.check("C14.A3", "MemoryManager.get_inactive_register:pool-R0..R15", ok, "the pool of candidate registers is not R0..R(2**REG_INDEX_BITS - 1)", mm.loc(gi))
-    # first inactive is returned; activation only when asked; exhaustion raises
-    rets = A.returns(gi)
-    guarded = False
-    for r in rets:
-        tests = G.path_conditions(gi, r)
-        guarded = isinstance(r.value, ast.Name) and any((not pol) and isinstance(t, ast.Call) and A.call_name(t) == "is_register_active" and t.args and A.norm(t.args[0]) == r.value.id for t, pol in tests)
-    ctx.check("C14.A3", "MemoryManager.get_inactive_register:returns-only-inactive", guarded, "the returned register is not tested to be inactive", mm.loc(gi))
-    ctx.check("C14.A3", "MemoryManager.get_inactive_register:exhaustion-raises", G.always_raises(A.strip_docstring(gi.body)), "running out of registers does not raise", mm.loc(gi), trivial=True)
+            return it.call_function(r_[0].module, r_[1], [], {"activate": activate}, self_obj=o), o.fields["_active_registers"]
+        except C.EvalRaise as ex_:
+            return ("raises", str(ex_)), o.fields["_active_registers"]
+
+    ok = guarded = exhaust_ok = True
+    detail = ""
+    try:
+        bits = ev.eval(ast.parse("REG_INDEX_BITS", mode="eval").body, mm.module)
+        n_regs = 2 ** bits
+        allr = [f"R{i}" for i in range(n_regs)]
+        for active in ([], ["R0"], ["R0", "R1", "R3"], ["R1", "R2"], allr[:-1], allr):
+            for activate in (False, True):
+                got, after = run_pool(active, activate)
+                free = [x for x in allr if x not in active]
+                if not free:
+                    if not (isinstance(got, tuple) and got[0] == "raises"):
+                        exhaust_ok = False
+                        detail = f"with all {n_regs} registers active it returns {got!r} instead of raising"
+                    continue
+                if got not in allr:
+                    ok = False
+                    detail = f"with {active[:4]}... active it returns {got!r}, which is not one of R0..R{n_regs - 1}"
+                elif got in active:
+                    guarded = False
+                    detail = f"with {active[:4]} active it returns {got}, which is active"
+                elif got != free[0]:
+                    ok = False
+                    detail = f"with {active[:4]} active it returns {got}, not the first inactive register {free[0]} (a later one may be reserved by a non-activating caller)"
+                if set(after) != set(active) | ({got} if activate and isinstance(got, str) else set()):
+                    guarded = False
+                    detail = f"activate={activate}: the active set becomes {sorted(after)[:5]}"
+    except (AnalysisError, Unknown) as ex_:
+        ctx.error("C14.A3", f"MemoryManager.get_inactive_register cannot be evaluated: {ex_}")
+    ctx.check("C14.A3", "MemoryManager.get_inactive_register:pool-R0..R15", ok, f"the pool of candidate registers is not R0..R(2**REG_INDEX_BITS - 1), searched from R0 upwards: {detail}", mm.loc(gi))
+    ctx.check("C14.A3", "MemoryManager.get_inactive_register:returns-only-inactive", guarded, f"the returned register is not an inactive one, or the active set is not updated exactly when asked: {detail}", mm.loc(gi))
+    ctx.check("C14.A3", "MemoryManager.get_inactive_register:exhaustion-raises", exhaust_ok, f"running out of registers does not raise: {detail}", mm.loc(gi), trivial=True)
     ar = mm.methods.get("add_active_register")
     rr = mm.methods.get("remove_active_register")
     ok = ar is not None and rr is not None and any(isinstance(c, ast.Call) and A.norm(c.func) == "self._active_registers.add" for c in ast.walk(ar)) and any(isinstance(c, ast.Call) and A.norm(c.func) in ("self._active_registers.remove", "self._active_registers.discard") for c in ast.walk(rr))
